@@ -353,6 +353,15 @@ func (e *e6Interp) val(v ssa.Value) *Sym {
 	case *ssa.Builtin:
 		return &Sym{Op: "fn", Name: "builtin." + x.Name(), Type: x.Type()}
 	}
+	// A value defined outside the region that is a pure expression of the function's parameters and constants (a length
+	// taken once before a loop, a bound hoisted out of it) has the same value wherever it is used: evaluate it in place,
+	// as if it had been written where it is used.
+	if in, ok := v.(ssa.Instruction); ok && pureOfParams(v, 0) {
+		e.step(in)
+		if s, ok := e.env[v]; ok {
+			return s
+		}
+	}
 	// A value defined outside the region (e.g. before the loop): opaque, named by its SSA register.
 	name := ""
 	if e.OuterName != nil {
@@ -1388,4 +1397,36 @@ func isPurePredicate(f *ssa.Function, pkgPath string) bool {
 		}
 	})
 	return pure
+}
+
+// pureOfParams: v is computed from parameters and constants by arithmetic, conversions and the builtins len, cap, min
+// and max only (no loads, no calls): its value does not depend on where in the function it is evaluated.
+func pureOfParams(v ssa.Value, d int) bool {
+	if d > 6 {
+		return false
+	}
+	switch x := v.(type) {
+	case *ssa.Const, *ssa.Parameter:
+		return true
+	case *ssa.BinOp:
+		return pureOfParams(x.X, d+1) && pureOfParams(x.Y, d+1)
+	case *ssa.Convert:
+		return pureOfParams(x.X, d+1)
+	case *ssa.ChangeType:
+		return pureOfParams(x.X, d+1)
+	case *ssa.UnOp:
+		return (x.Op == token.SUB || x.Op == token.NOT || x.Op == token.XOR) && pureOfParams(x.X, d+1)
+	case *ssa.Call:
+		bi, ok := x.Call.Value.(*ssa.Builtin)
+		if !ok || !(bi.Name() == "len" || bi.Name() == "cap" || bi.Name() == "min" || bi.Name() == "max") {
+			return false
+		}
+		for _, a := range x.Call.Args {
+			if !pureOfParams(a, d+1) {
+				return false
+			}
+		}
+		return true
+	}
+	return false
 }
